@@ -376,6 +376,11 @@ Qed.
 Lemma apply_pchange_keeps s c : keeps [GPar] s (apply_pchange s c).
 Proof. destruct c; keeps_solve. Qed.
 
+(* an accepted governance operation passed every per-key validator *)
+Lemma step_gov_ok s cs s' :
+  step s (OGov cs) = OOk s' -> forallb pchange_valid cs = true /\ s' = fold_left apply_pchange cs (clear_events s).
+Proof. unfold step. destruct (forallb pchange_valid cs); [|discriminate]. intros [= <-]. auto. Qed.
+
 (* the static configuration never changes *)
 Lemma step_cfg s o s' : step s o = OOk s' -> cfg s' = cfg s.
 Proof.
@@ -383,7 +388,7 @@ Proof.
   - destruct (begin_block _) eqn:H; try discriminate. intros [= <-]. apply begin_block_keeps in H. keeps_solve.
   - unfold run_tx. destruct (validate_basic m); [|discriminate].
     destruct (handle _ m) eqn:H; try discriminate. intros [= <-]. apply handle_keeps in H. keeps_solve.
-  - intros [= <-]. apply (fold_left_inv (fun x => cfg x = cfg s)); [|reflexivity].
+  - destruct (forallb pchange_valid cs); [|discriminate]. intros [= <-]. apply (fold_left_inv (fun x => cfg x = cfg s)); [|reflexivity].
     intros x c Hx. pose proof (apply_pchange_keeps x c). keeps_solve.
   - destruct (end_block _) eqn:H; try discriminate. intros [= <-]. apply end_block_keeps in H. keeps_solve.
 Qed.
